@@ -33,6 +33,11 @@ type VerifRange struct {
 func (f *FilterMaps) VerifIndexedRange() VerifRange {
 	f.indexLock.RLock()
 	defer f.indexLock.RUnlock()
+	return f.VerifIndexedRangeUnlocked()
+}
+
+// VerifIndexedRangeUnlocked is for trace output from the indexer's own goroutine.
+func (f *FilterMaps) VerifIndexedRangeUnlocked() VerifRange {
 	r := VerifRange{
 		Initialized:      f.indexedRange.initialized,
 		HeadIndexed:      f.indexedRange.headIndexed,
